@@ -39,9 +39,24 @@ use discret::verif_hooks::database::sqlite_database::{prepare_connection, Writea
 use discret::verif_hooks::database::system_entities::SYSTEM_DATA_MODEL;
 use discret::verif_hooks::database::Error as DbError;
 use discret::verif_hooks::security::{base64_encode, Uid};
+use crate::inst::Inst;
+use discret::verif_hooks::database::edge::{Edge, EdgeDeletionEntry};
+use discret::verif_hooks::database::mutation_query::InsertEntity;
+use discret::verif_hooks::database::node::{Node, NodeDeletionEntry, NodeIdentifier};
+use discret::verif_hooks::database::room_node::RoomNode;
 use rusqlite::Connection;
-use std::collections::{BTreeMap, HashMap};
+use std::collections::{BTreeMap, HashMap, HashSet};
 use std::sync::Arc;
+
+/// what a peer would receive for one local operation
+#[derive(Default)]
+pub struct Outbox {
+    pub local_ok: bool,
+    pub nodes: Vec<Node>,
+    pub edges: Vec<Edge>,
+    pub node_dels: Vec<NodeDeletionEntry>,
+    pub edge_dels: Vec<EdgeDeletionEntry>,
+}
 
 pub const ENT_NAMES: [&str; 4] = ["", "Person", "Pet", "Note"];
 pub const LABELS: [&str; 3] = ["parents", "pet", "owner"];
@@ -61,6 +76,12 @@ pub struct Bench {
     /// per room: uids of the admin entries in creation order
     admin_entries: HashMap<u64, Vec<Uid>>,
     max_node_size: u64,
+    /// `peer=1`: a real instance holding the same room definitions, fed with what it would receive
+    pub peer: Option<Inst>,
+    pub peer_wanted: bool,
+    pub peer_stopped: bool,
+    pub outbox: Option<Outbox>,
+    pub pending_room_sync: Option<u64>,
 }
 
 struct Child {
@@ -143,6 +164,11 @@ impl Bench {
             handles: BTreeMap::new(),
             admin_entries: HashMap::new(),
             max_node_size: Configuration::default().max_object_size_in_kb * 1024,
+            peer: None,
+            peer_wanted: false,
+            peer_stopped: false,
+            outbox: None,
+            pending_room_sync: None,
         }
     }
 
@@ -171,7 +197,27 @@ impl Bench {
         let mut prm = params(p);
         let mut mq = MutationQuery::execute(&mut prm, parser, &self.conn)?;
         let mut auth = self.auth_for(k);
-        let rooms = auth.validate_mutation(&mut mq)?;
+        let rooms = match auth.validate_mutation(&mut mq) {
+            Ok(r) => r,
+            Err(e) => {
+                // refused: what the peers WOULD have received (rows are already signed by `sign_all`)
+                if matches!(e, DbError::AuthorisationRejected(_, _) | DbError::UnknownRoom(_)) {
+                    let mut out = Outbox::default();
+                    for ent in &mq.mutate_entities {
+                        collect_entity(ent, &mut out, Some((d, &auth.signing_key)));
+                    }
+                    self.outbox = Some(out);
+                }
+                return Err(e);
+            }
+        };
+        {
+            let mut out = Outbox { local_ok: true, ..Default::default() };
+            for ent in &mq.mutate_entities {
+                collect_entity(ent, &mut out, None);
+            }
+            self.outbox = Some(out);
+        }
         self.conn.execute("BEGIN TRANSACTION", [])?;
         if let Err(e) = mq.write(&self.conn) {
             let _ = self.conn.execute("ROLLBACK", []);
@@ -193,7 +239,35 @@ impl Bench {
         let mut prm = params(p);
         let mut dq = DeletionQuery::build(&mut prm, parser, &self.conn)?;
         let auth = self.auth_for(k);
-        auth.validate_deletion(&mut dq)?;
+        if let Err(e) = auth.validate_deletion(&mut dq) {
+            if matches!(e, DbError::AuthorisationRejected(_, _) | DbError::UnknownRoom(_)) {
+                let mut out = Outbox::default();
+                for n in &dq.nodes {
+                    if let Some(r) = n.node.room_id {
+                        out.node_dels.push(NodeDeletionEntry::build(r, &n.node, d, &auth.signing_key));
+                    }
+                }
+                for e in &dq.edges {
+                    if let Some(r) = e.room_id {
+                        out.edge_dels.push(EdgeDeletionEntry::build(r, &e.edge, d, &auth.signing_key));
+                    }
+                }
+                for n in &dq.updated_nodes {
+                    let mut n = n.clone();
+                    let _ = n.sign(&auth.signing_key);
+                    out.nodes.push(n);
+                }
+                self.outbox = Some(out);
+            }
+            return Err(e);
+        }
+        self.outbox = Some(Outbox {
+            local_ok: true,
+            nodes: dq.updated_nodes.clone(),
+            edges: vec![],
+            node_dels: dq.node_log.iter().map(wire).collect(),
+            edge_dels: dq.edge_log.iter().map(wire).collect(),
+        });
         self.conn.execute("BEGIN TRANSACTION", [])?;
         if let Err(e) = dq.delete(&self.conn) {
             let _ = self.conn.execute("ROLLBACK", []);
@@ -201,6 +275,187 @@ impl Bench {
         }
         self.conn.execute("COMMIT", [])?;
         Ok(())
+    }
+
+    /// after an accepted room mutation: the peer imports the new definition (`RoomNode::read` here,
+    /// `add_room_node` there)
+    pub async fn sync_room_to_peer(&mut self) -> String {
+        let r = match self.pending_room_sync.take() {
+            Some(r) if self.peer_wanted => r,
+            _ => return String::new(),
+        };
+        if self.peer_stopped {
+            return " peer:stopped".into();
+        }
+        if self.peer.is_none() {
+            let folder = std::env::temp_dir().join(format!("dv-room-peer-{}-{}", std::process::id(), self.case_id));
+            let _ = std::fs::remove_dir_all(&folder);
+            match Inst::start(folder, crate::inst::secret_of(777, self.case_id)).await {
+                Ok(i) => self.peer = Some(i),
+                Err(e) => {
+                    self.peer_stopped = true;
+                    return format!(" peer:err:start-{}", class(&e));
+                }
+            }
+        }
+        let id = match self.rooms.get(&r) {
+            Some(id) => *id,
+            None => return " peer:err:no-room".into(),
+        };
+        let node = match RoomNode::read(&self.conn, &id) {
+            Ok(Some(n)) => {
+                let ser = bincode::serialize(&n).unwrap();
+                bincode::deserialize::<RoomNode>(&ser).unwrap()
+            }
+            _ => return " peer:err:no-room".into(),
+        };
+        match self.peer.as_ref().unwrap().import(node).await {
+            Ok(()) => " peer:ok".into(),
+            Err(e) => {
+                self.peer_stopped = true;
+                format!(" peer:err:{}", class(&e))
+            }
+        }
+    }
+
+    /// feed the peer with what it would receive for the last data operation; returns ` peer=…`
+    pub async fn feed_peer(&mut self) -> String {
+        let out = match self.outbox.take() {
+            Some(o) if self.peer_wanted => o,
+            _ => return String::new(),
+        };
+        if self.peer_stopped {
+            return " peer=stopped".into();
+        }
+        let peer = match self.peer.as_ref() {
+            Some(p) => p,
+            None => return " peer=none".into(),
+        };
+        let mut sent = 0usize;
+        let mut accepted = 0usize;
+        let mut refused: Vec<String> = vec![];
+        // 1. reference deletion records
+        for e in &out.edge_dels {
+            sent += 1;
+            let label = format!(
+                "de{}>{}>{}",
+                self.handle_of(&e.src),
+                self.label_index(&e.src_entity, &e.label),
+                self.handle_of(&e.dest)
+            );
+            let _ = peer.svc.delete_edges(vec![wire(e)]).await;
+            let (room, src, lab, dest, dd) = (e.room_id, e.src, e.label.clone(), e.dest, e.deletion_date);
+            let n = peer_count(
+                peer,
+                "SELECT count(*) FROM _edge_deletion_log WHERE room_id=? AND src=? AND label=? AND dest=? AND deletion_date=?",
+                move |conn, sql| conn.query_row(sql, (room, src, lab, dest, dd), |row| row.get::<_, i64>(0)),
+            )
+            .await;
+            if n > 0 {
+                accepted += 1;
+            } else {
+                refused.push(label);
+            }
+        }
+        // 2. node deletion records
+        for e in &out.node_dels {
+            sent += 1;
+            let label = format!("dn{}", self.handle_of(&e.id));
+            let _ = peer.svc.delete_nodes(vec![wire(e)]).await;
+            let (room, id, dd) = (e.room_id, e.id, e.deletion_date);
+            let n = peer_count(
+                peer,
+                "SELECT count(*) FROM _node_deletion_log WHERE room_id=? AND id=? AND deletion_date=?",
+                move |conn, sql| conn.query_row(sql, (room, id, dd), |row| row.get::<_, i64>(0)),
+            )
+            .await;
+            if n > 0 {
+                accepted += 1;
+            } else {
+                refused.push(label);
+            }
+        }
+        // 3. rows, per room (rows without room are not synchronised)
+        let mut by_room: Vec<(Uid, Vec<Node>)> = vec![];
+        for n in &out.nodes {
+            if let Some(r) = n.room_id {
+                match by_room.iter_mut().find(|(x, _)| *x == r) {
+                    Some((_, v)) => v.push(n.clone()),
+                    None => by_room.push((r, vec![n.clone()])),
+                }
+            }
+        }
+        for (room, nodes) in by_room {
+            let mut set = HashSet::new();
+            for n in &nodes {
+                set.insert(NodeIdentifier { id: n.id, mdate: n.mdate, signature: n._signature.clone() });
+            }
+            let mut ntis = match peer.svc.filter_existing_node(set).await {
+                Ok(v) => v,
+                Err(_) => vec![],
+            };
+            let mut requested: Vec<Uid> = vec![];
+            for nti in ntis.iter_mut() {
+                if let Some(n) = nodes.iter().find(|n| n.id == nti.id) {
+                    nti.node = Some(n.clone());
+                    requested.push(n.id);
+                }
+            }
+            for n in &nodes {
+                sent += 1;
+                if !requested.contains(&n.id) {
+                    refused.push(format!("stale:n{}", self.handle_of(&n.id)));
+                }
+            }
+            let rejected = peer.svc.add_nodes(room, ntis).await.unwrap_or_default();
+            for id in &requested {
+                if rejected.contains(id) {
+                    refused.push(format!("n{}", self.handle_of(id)));
+                } else {
+                    accepted += 1;
+                }
+            }
+        }
+        // 4. references, in the room of their source row
+        for e in &out.edges {
+            let room = match out.nodes.iter().find(|n| n.id == e.src) {
+                Some(n) => n.room_id,
+                None => self
+                    .conn
+                    .query_row("SELECT room_id FROM _node WHERE id = ?", [&e.src], |row| row.get::<_, Option<Uid>>(0))
+                    .ok()
+                    .flatten(),
+            };
+            let room = match room {
+                Some(r) => r,
+                None => continue,
+            };
+            sent += 1;
+            let label = format!(
+                "e{}>{}>{}",
+                self.handle_of(&e.src),
+                self.label_index(&e.src_entity, &e.label),
+                self.handle_of(&e.dest)
+            );
+            match peer.svc.add_edges(room, vec![e.clone()]).await {
+                Ok(rej) if rej.is_empty() => accepted += 1,
+                _ => refused.push(label),
+            }
+        }
+        refused.sort();
+        if (out.local_ok && !refused.is_empty()) || (!out.local_ok && accepted > 0) {
+            // the peer's content no longer equals the local content before the next operation
+            self.peer_stopped = true;
+        }
+        if sent == 0 {
+            " peer=none".into()
+        } else if refused.is_empty() {
+            " peer=accept".into()
+        } else if accepted == 0 {
+            format!(" peer=refuse:{}", refused.join(","))
+        } else {
+            format!(" peer=partial:{}", refused.join(","))
+        }
     }
 
     pub fn op_rmut(&mut self, kv: &Kv) -> String {
@@ -233,9 +488,14 @@ impl Bench {
                         l.push(s.node_to_mutate.id);
                     }
                 }
+                self.outbox = None;
+                self.pending_room_sync = Some(rm.r);
                 "ok".into()
             }
-            Err(e) => format!("err:{}", class(&e)),
+            Err(e) => {
+                self.outbox = None;
+                format!("err:{}", class(&e))
+            }
         }
     }
 
@@ -722,4 +982,57 @@ impl Bench {
             de.join(",")
         )
     }
+}
+
+/// the rows, references and deletion records of one entity of a mutation tree and of its sub-entities.
+/// `would_be`: the mutation was refused; the deletion records it would have produced are built here.
+fn collect_entity(ent: &InsertEntity, out: &mut Outbox, would_be: Option<(i64, &discret::verif_hooks::security::Ed25519SigningKey)>) {
+    if let Some(n) = &ent.node_to_mutate.node {
+        out.nodes.push(n.clone());
+    }
+    for e in &ent.edge_insertions {
+        out.edges.push(e.clone());
+    }
+    match would_be {
+        None => {
+            for l in &ent.edge_deletions_log {
+                out.edge_dels.push(wire(l));
+            }
+        }
+        Some((now, sk)) => {
+            if let Some(r) = ent.node_to_mutate.room_id {
+                if ent.node_to_mutate.node.is_some() {
+                    for e in &ent.edge_deletions {
+                        out.edge_dels.push(EdgeDeletionEntry::build(r, e, now, sk));
+                    }
+                }
+            }
+        }
+    }
+    for (_, subs) in &ent.sub_nodes {
+        for s in subs {
+            collect_entity(s, out, would_be);
+        }
+    }
+}
+
+/// a record as it arrives over the wire (bincode round trip; fields marked `serde(skip)` are reset)
+fn wire<T: serde::Serialize + serde::de::DeserializeOwned>(x: &T) -> T {
+    bincode::deserialize(&bincode::serialize(x).unwrap()).unwrap()
+}
+
+async fn peer_count<F>(peer: &Inst, sql: &'static str, f: F) -> i64
+where
+    F: FnOnce(&Connection, &str) -> rusqlite::Result<i64> + Send + 'static,
+{
+    let (tx, rx) = tokio::sync::oneshot::channel::<i64>();
+    let _ = peer
+        .svc
+        .db
+        .reader
+        .send_async(Box::new(move |conn| {
+            let _ = tx.send(f(conn, sql).unwrap_or(-1));
+        }))
+        .await;
+    rx.await.unwrap_or(-1)
 }
